@@ -8,7 +8,8 @@ git -C /repo worktree add -q --detach "$R" HEAD || exit 9
 trap 'git -C /repo worktree remove --force "$R" 2>/dev/null; exit 143' TERM INT HUP
 (cd "$R" && git apply "$d/patch.diff") || { echo "patch does not apply"; git -C /repo worktree remove --force "$R"; exit 9; }
 log=/tmp/seed-$p-$$.log
-cd /verif && GOSYM_REPO="$R" timeout 1800 ./check "$p" "$t" "$@" > "$log" 2>&1; rc=$?
+mkdir -p /tmp/seed-evidence
+cd /verif && GOSYM_REPO="$R" timeout 1800 ./check "$p" "$t" -evidence "/tmp/seed-evidence/$p-$$.json" "$@" > "$log" 2>&1; rc=$?
 git -C /repo worktree remove --force "$R"
 echo "check exit=$rc"; grep -E "^(VIOLATION|KNOWN|UNCONFIRMED|INCONCLUSIVE|ENCODER|COVER|HARNESS|summary)" "$log" | cut -c1-260 | head -8
 cp "$log" /tmp/seed-$p.log
